@@ -385,6 +385,33 @@ def run_arith(repo, rep, prop):
                       'the always_break/group choice in %s depends on %s' % (fname, sorted(bad)), nontrivial=True)
     rep.floor(prop + '.L.e', n, 4)
 
+    # ---------------------------------------------------------------- L.g strategy wiring
+    n = 0
+    lay = repo.module('layout')
+    for fname, pred in (('layout_smart', 'smart_fitting_predicate'), ('layout_fast', 'fast_fitting_predicate')):
+        f = lay.funcs.get(fname)
+        n += 1
+        if f is None:
+            rep.fail(prop + '.L.g', fname + ':exists', lay.relpath, fname + ' vanished')
+            continue
+        calls = [c for c in ast.walk(f.node) if isinstance(c, ast.Call) and call_name(c) == 'best_layout']
+        ok = len(calls) == 1
+        if ok:
+            c = calls[0]
+            bound = dict(zip(blf.params, [src(a) for a in c.args]))
+            bound.update({k.arg: src(k.value) for k in c.keywords})
+            ok = bound.get(blf.params[0]) == f.params[0] and bound.get(WIDTH) == f.params[1] and bound.get(FRAC) == f.params[2] \
+                and bound.get(predname) == pred and 'outcol' not in bound and 'mode' not in bound
+        rep.check(ok, prop + '.L.g', fname + ':wiring', f.where, '%s = best_layout(doc, width, ribbon_frac, %s)' % (fname, pred),
+                  '%s no longer forwards (doc, width, ribbon_frac) to best_layout with %s' % (fname, pred), nontrivial=True)
+    a = blf.node.args
+    defaults = dict(zip([x.arg for x in a.args[len(a.args) - len(a.defaults):]], [src(d) for d in a.defaults]))
+    n += 1
+    rep.check(defaults.get('outcol') == '0' and defaults.get('mode') == 'BREAK_MODE', prop + '.L.g', 'best_layout:starts-at-column-0-in-break-mode', blf.where,
+              'layout starts at column 0 in break mode', 'best_layout defaults are %s' % defaults, nontrivial=True)
+    # the pipeline uses one of the two strategies
+    rep.floor(prop + '.L.g', n, 3)
+
     # ---------------------------------------------------------------- L.f note
     for name in ('fast_fitting_predicate', 'smart_fitting_predicate'):
         m = ms[name]
